@@ -58,7 +58,9 @@ func runConcurrent(tier string, rep *kf.Reporter, deadline time.Time) (partResul
 
 	if tier != "thorough" {
 		// a small 2x2 family around the two-lock AddUser
-		core := []Call{tm[2], tm[1], tm[3], tm[5], tm[4]}
+		// (AddGroup of the same name too: a call that re-validates "the name still exists"
+		// after changing locks must not take a group deleted and added again for the one it read)
+		core := []Call{tm[2], tm[1], tm[3], tm[5], tm[4], tm[0]}
 
 		for a := range core {
 			for b := range core {
